@@ -657,7 +657,7 @@ func (rn *runner) straceSession(dir string, limit int, ops []Op, sys string, n i
 	b, _ := json.Marshal(sessIn{Dir: dir, Limit: limit, Ops: ops, Progress: prog})
 	_ = os.WriteFile(inf, b, 0o644)
 	exe, _ := os.Executable()
-	args := []string{"-f", "-o", "/dev/null", "-e", "trace=openat,write,rename,renameat,renameat2"}
+	args := []string{"-f", "-o", "/dev/null", "-e", "trace=openat,write,pwrite64,writev,rename,renameat,renameat2,unlink,unlinkat,truncate,ftruncate,link,linkat"}
 	for _, f := range []string{"history", "history.tmp", "stash.lisp", "config.lisp"} {
 		args = append(args, "-P", filepath.Join(dir, f))
 	}
@@ -933,7 +933,7 @@ func execCase(x *fw.Ctx, c Case) {
 		// hook-independent cross-check: strace kills the session process at the
 		// N-th open / write / rename system call on the persistence files
 		if c.Strace && straceOK() {
-			for _, sys := range []string{"openat", "write", "rename,renameat,renameat2"} {
+			for _, sys := range []string{"openat", "write", "rename,renameat,renameat2", "unlink,unlinkat", "truncate,ftruncate", "pwrite64,writev", "link,linkat"} {
 				for n := 1; n <= 60; n++ {
 					cdir := filepath.Join(root, fmt.Sprintf("strace-%d-%s-%d", si, sys[:4], n))
 					copyDir(pre, cdir)
